@@ -30,7 +30,8 @@ Inductive tstmt :=
   | TSFor (init : tstmt) (c : texpr) (post : texpr) (body : tstmt)
   | TSBreak
   | TSContinue
-  | TSReturn (e : texpr).
+  | TSReturn (e : texpr)
+  | TSSwitch (e : texpr) (items : list (slabel * tstmt)).     (* e = the promoted controlling expression *)
 
 Section ElabS.
   Variable sv : semv.
@@ -50,6 +51,8 @@ Section ElabS.
     | SBreak => TSBreak
     | SContinue => TSContinue
     | SReturn e => TSReturn (coerce (elab sv te e) rt)
+    | SSwitch e items =>                                        (* on_switch_enter: promote *)
+        TSSwitch (promote_m sv (elab sv te e)) (map (fun it => match it with (l, s) => (l, elab_stmt s) end) items)
     end.
 End ElabS.
 
@@ -62,6 +65,9 @@ Fixpoint agrees_stmt (sv : semv) (dm : datamodel) (te : tenv) (s : cstmt) : bool
   | SIf c a b => agrees sv dm te c && agrees_stmt sv dm te a && agrees_stmt sv dm te b
   | SWhile c b | SDoWhile b c => agrees sv dm te c && agrees_stmt sv dm te b
   | SFor i c p b => agrees_stmt sv dm te i && agrees sv dm te c && agrees sv dm te p && agrees_stmt sv dm te b
+  | SSwitch e items =>
+      agrees sv dm te e && agree_p sv dm (xtype_of dm te e) &&
+      forallb (fun it => match it with (_, s) => agrees_stmt sv dm te s end) items
   end.
 
 (* ------------------------------------------------------------------ lowered skeleton *)
@@ -77,7 +83,8 @@ Inductive irs :=
   | ISFor (init : irs) (c : irc) (post : irx) (body : irs)
   | ISBreak
   | ISContinue
-  | ISReturn (x : irx).
+  | ISReturn (x : irx)
+  | ISSwitch (x : irx) (t : ty) (items : list (slabel * irs)).
 
 Fixpoint lower_stmt (g : cgen) (s : tstmt) : irs :=
   match s with
@@ -93,6 +100,8 @@ Fixpoint lower_stmt (g : cgen) (s : tstmt) : irs :=
   | TSBreak => ISBreak
   | TSContinue => ISContinue
   | TSReturn e => ISReturn (lower g e)
+  | TSSwitch e items =>
+      ISSwitch (lower g e) (irty g (ttyp e)) (map (fun it => match it with (l, s) => (l, lower_stmt g s) end) items)
   end.
 
 (* ------------------------------------------------------------------ running a skeleton *)
@@ -111,6 +120,16 @@ Section SRun.
           | None => '(_, s3) <~ xrun k post s2 ;; for_loop_i run m s3 c post body   (* iterator block *)
           end
         else ODone (SNormal, s1)
+    end.
+
+  (* the value of the constant of a `case`: Const(value, switch_ir_typ) *)
+  Definition case_val (t : ty) (z : Z) : Z := match wrap_ty k t z with Some r => r | None => z end.
+  Fixpoint run_items_i (run : irs -> store -> outcome (sout * store)) (l : list (slabel * irs)) (st : store)
+    : outcome (sout * store) :=
+    match l with
+    | [] => ODone (SNormal, st)                       (* jump to the final block *)
+    | (_, s) :: r => '(o, s1) <~ run s st ;;
+                     match o with SNormal => run_items_i run r s1 | _ => ODone (o, s1) end   (* fall through *)
     end.
 
   Fixpoint srun (fuel : nat) (s : irs) (st : store) {struct fuel} : outcome (sout * store) :=
@@ -148,6 +167,13 @@ Section SRun.
       | ISBreak => ODone (SBrk, st)
       | ISContinue => ODone (SCont, st)
       | ISReturn x => '(v, s1) <~ xrun k x st ;; ODone (SRet v, s1)
+      | ISSwitch x t items =>
+          (* test block: the chain `v == case_i ? block_i : next`, then default or final *)
+          '(v, s1) <~ xrun k x st ;;
+          match switch_target (fun z => v =? case_val t z) items with
+          | None => ODone (SNormal, s1)
+          | Some rest => '(o, s2) <~ run_items_i (srun f) rest s1 ;; ODone (switch_exit o, s2)
+          end
       end
     end.
 End SRun.
@@ -209,6 +235,34 @@ Section EmitS.
     | ISBreak => match brk with Some b => fresh (jump b e) | None => e end
     | ISContinue => match cont with Some b => fresh (jump b e) | None => e end
     | ISReturn x => let '(r, e1) := emit_x slots x e in fresh (add_ins e1 (IReturn r))
+    | ISSwitch x t items =>
+        let '(tst, e1) := new_block e in
+        let '(bod, e2) := new_block e1 in
+        let '(fin, e3) := new_block e2 in
+        (* the body: every labelled item opens a block (gen_case / gen_default) and is recorded *)
+        let go := fix go (l : list (slabel * irs)) (opts : list (slabel * nat)) (e : estate) {struct l} :=
+          match l with
+          | [] => (opts, e)
+          | (LNone, s) :: r => go r opts (emit_s s (Some fin) cont e)
+          | (lb, s) :: r =>
+              let '(b, ea) := new_block e in
+              go r (opts ++ [(lb, b)]) (emit_s s (Some fin) cont (set_block (jump b ea) b))
+          end in
+        let '(opts, e4) := go items [] (set_block (jump tst e3) bod) in
+        let e5 := jump fin e4 in
+        (* the test chain *)
+        let '(rv, e6) := emit_x slots x (set_block e5 tst) in
+        let e7 := fold_left (fun ee o =>
+                    match fst o with
+                    | LCase z =>
+                        let '(rc, ea) := new_val ee (fun v => IConst v "num" t (CInt z)) in
+                        let '(nxt, eb) := new_block ea in
+                        set_block (add_ins eb (ICJump rv Ceq rc (bid_of (snd o)) (bid_of nxt))) nxt
+                    | _ => ee
+                    end) opts e6 in
+        let dflt := match find (fun o => match fst o with LDefault => true | _ => false end) opts with
+                    | Some o => snd o | None => fin end in
+        set_block (jump dflt e7) fin
     end.
 End EmitS.
 
